@@ -41,7 +41,7 @@ COAP_EVT = ["EN", "EU", "EL0", "EL1", "ER0", "ER1", "EC"]     # event channel in
 # BLE GATT faults: write of fragment j refused with the link staying up (W) / dropping (V), read errors (T, TB, D)
 # CoAP subscriptions on ONE live session: subscribe / unsubscribe-everything (each with its response), events, replays
 COAP_SUBS = ["SUB+N", "UNS+N", "EN", "ER0", "SUB"]
-BLE_FAULT = ["S1.0", "S30.1", "N", "W1.0.0", "W30.1.0", "W30.1.1", "V30.1.0", "TB", "D", "RC", "X"]
+BLE_FAULT = ["S1.0", "S30.1", "N", "W1.0.0", "W30.1.0", "W30.1.1", "V30.1.0", "TB", "D", "LD", "RC", "X"]
 
 
 def parse_ev(t):
@@ -49,7 +49,7 @@ def parse_ev(t):
         # glued delivery (read segmentation): sub-events joined by "+", "@c" = the read is cut c bytes into the last frame
         body, _, cut = t.partition("@")
         return ("G", [parse_ev(x) for x in body.split("+")], int(cut) if cut else 0)
-    if t in ("N", "N4", "C", "X", "T", "TB", "D", "RC", "RD", "RR", "EPC", "SUB", "UNS", "EN", "EC", "EM", "EU"):
+    if t in ("N", "N4", "C", "X", "T", "TB", "D", "RC", "RD", "RR", "LD", "EPC", "SUB", "UNS", "EN", "EC", "EM", "EU"):
         return (t, 0, 0)
     if t.startswith("EL"):
         return ("EL", int(t[2:]), 0)
@@ -1065,6 +1065,14 @@ class BleRun:
                     w.set_exception(BleakError("disconnected"))
         elif k in ("RC", "RD"):
             self.reconnect(decline=(k == "RD"))
+        elif k == "LD":
+            # a disconnected callback that bleak delivers late, while the link (same client object) is up; then the next
+            # operation starts with _populate_accessories_and_characteristics.  Operations are serialised by the
+            # operation lock, so nothing happens while a request is still in flight.
+            if self.reqs.pending() == 0:
+                if self.client is not None:
+                    self.pairing._async_disconnected(self.client)
+                self.reconnect(decline=False)
         elif k == "RR":
             self.replayed_reconnect()
         settle(self.loop)
@@ -1507,7 +1515,7 @@ def random_histories(transport, r, count, maxlen):
                 if transport == "coap":
                     kinds += ["EN", "ER", "EF", "EC", "R", "F", "R", "EM", "EU", "EL0", "EL1", "ER"]
                 if transport == "ble":
-                    kinds += ["TB", "W", "W", "V", "RR"]
+                    kinds += ["TB", "W", "W", "V", "RR", "LD"]
                 if transport == "coap":
                     kinds += ["SUB", "UNS", "SUB+N", "UNS+N", "N4", "RR"]
                 if transport == "ip":
@@ -1529,6 +1537,15 @@ def random_histories(transport, r, count, maxlen):
                     h.append(k)
         out.append(h[:n])
     return out
+
+
+# LONG single-session histories: more than 1024 frames in each direction under one key (any table / width /
+# wrap-around in the nonce construction below 2^10 shows up as a duplicate in the seal log or a rejected genuine frame)
+LONG = {
+    "ip": [["S1024.0"] * 1030 + ["N"] * 3, ["N"] * 1026 + ["R0", "N"], ["S3000.0", "N"] * 350 + ["R1", "S1.0"]],
+    "ble": [["S1.0", "N"] * 1030 + ["R0"], ["S70.1", "N", "N"] * 350 + ["S1.0", "R3"]],
+    "coap": [["S1.0", "N"] * 1030 + ["S1.0", "F1"], ["EN"] * 1030 + ["ER0", "EN"]],
+}
 
 
 # the witnesses of the Coq refutation theorems (Props/C06.v), replayed on the implementation
@@ -1574,6 +1591,7 @@ DIRECTED = {
         ["S1.0", "V30.1.0", "S1.0", "RC", "S1.0", "N"], ["S30.1", "N", "TB", "S1.0", "RC", "W1.0.0", "S1.0"],
         # an attacker replays the recorded pair-verify (M2/M4) on the next connection, then recorded frames
         ["S1.0", "N", "RR", "S1.0", "R0", "RC", "S1.0", "N", "RR", "RD", "S1.0", "N"],
+        ["S1.0", "N", "LD", "S1.0", "R0", "S1.0", "LD", "N", "LD", "S1.0", "O0"],
     ],
 }
 
@@ -1587,7 +1605,7 @@ XCHECK_RUN = {"ip": "i_log (ip_run ip_init", "ble": "b_log (ble_run ble_init", "
 def coq_event(t):
     """One token of a driver request as a Gallina [ev] (same grammar as ocaml/drv_c06.ml ev_of_tok)."""
     simple = {"N": "Next", "N4": "Next404", "NB": "NextBad", "C": "Corrupt", "X": "Cancel", "T": "Timeout", "D": "Disconnect", "RC": "Reconnect",
-              "RD": "Reconnect", "EN": "ENext", "EC": "ECorrupt"}
+              "RD": "Reconnect", "LD": "LateDisc", "EN": "ENext", "EC": "ECorrupt"}
     if t in simple:
         return simple[t]
     if t.startswith("ER"):
@@ -1783,12 +1801,13 @@ def run(ctx):
             hists += list(exhaustive(fault_alpha, 4))
         n_core = len(hists) - n_full
         hists += DIRECTED[transport]
+        hists += LONG[transport]
         hists += random_histories(transport, rng(seed, "c06" + transport), n_rand, 60)
         model = drv.batch([transport + " " + " ".join(model_tokens(h, transport)) for h in hists])
         impl = impl_batch(transport, hists, workers)
         xsample += xcheck_pick(transport, hists, model, n_full + n_core)
         counts[transport] = dict(exhaustive_full_alphabet=n_full, exhaustive_core_alphabet=n_core,
-                                 directed=len(DIRECTED[transport]), random=n_rand)
+                                 directed=len(DIRECTED[transport]), long_sessions=len(LONG[transport]), random=n_rand)
         for idx, (h, m, (canon, bad, meta)) in enumerate(zip(hists, model, impl)):
             nontrivial = canon != "seal=;wire=;open=;acc=;out="
             cov.case(transport + " " + " ".join(h), nontrivial,
@@ -1815,7 +1834,7 @@ def run(ctx):
     out = []
     for slug, v in viols.items():
         tr, h = v["payload"]["transport"], v["payload"]["history"]
-        if v["found_input"] and len(h) > 3:
+        if v["found_input"] and 3 < len(h) <= 120:      # the long single-session replays are kept as they are
             def still(c, tr=tr, slug=slug):
                 try:
                     return any(s == slug for s, _ in oracle(tr, run_impl(tr, c)[1]))
